@@ -666,6 +666,16 @@ fn function_doc(trivia: &Trivia, function: &Function) -> Doc {
 /// or `@(type) { body }` (the parenthesised arm accepts any type).
 fn spawn_doc(trivia: &Trivia, func: &Term) -> Doc {
     match func {
+        // The `@`-sugar forms can only express a parameter type and a body. A spawned function
+        // without a body (`@#'int`), or with type parameters or a return type, keeps its full `#…`
+        // head, which the parser accepts after `@` as an ordinary primary.
+        Term::Function(function)
+            if function.body.is_none()
+                || function.return_type.is_some()
+                || !function.type_parameters.is_empty() =>
+        {
+            pretty::concat(vec![pretty::text("@"), function_doc(trivia, function)])
+        }
         Term::Function(function) => {
             let head = match &function.parameter_type {
                 None => "@".to_string(),
